@@ -271,7 +271,33 @@ def firing_mutants(src: dict[str, str]) -> list[dict]:
     m += _each("rules_inline/link.py", src, lambda n: isinstance(n, ast.Assign) and isinstance(n.value, ast.Call) and U(n.value.func) == "normalizeReference",
                lambda n: ast.Pass(), "C16", "normalizeReference dropped at a lookup", 1)
     # C19: text guard removed in smartquotes
-    m += _each("rules_core/smartquotes.py", src, lambda n: isinstance(n, ast.If) and U(n.test) == "token.type != 'text'", lambda n: ast.Pass(), "C19", "type != 'text' guard dropped", 1)
+    m += _each("rules_core/smartquotes.py", src, lambda n: isinstance(n, ast.If) and "token.type != 'text'" in U(n.test), lambda n: ast.Pass(), "C19", "type != 'text' guard dropped", 1)
+    # C19: the autolink guard of smartquotes (finding F11): the counter's update dropped / the guard no longer tests it
+    m += _each("rules_core/smartquotes.py", src, lambda n: isinstance(n, ast.AugAssign) and U(n.target) == "inside_autolink" and isinstance(n.op, ast.Add),
+               lambda n: ast.Pass(), "C19", "inside_autolink += 1 dropped in smartquotes", 1)
+
+    def only_text(n):
+        n = copy.deepcopy(n)
+        n.test = n.test.values[0]
+        return n
+    m += _each("rules_core/smartquotes.py", src, lambda n: isinstance(n, ast.If) and isinstance(n.test, ast.BoolOp) and "inside_autolink" in U(n.test),
+               only_text, "C19", "`or inside_autolink` dropped from the text guard of smartquotes", 1)
+    # C03 (NONBLANK): the blank-line exit of the paragraph scan dropped
+    m += _each("rules_block/paragraph.py", src, lambda n: isinstance(n, ast.If) and U(n.test) == "state.isEmpty(nextLine)", lambda n: ast.Pass(), "C03",
+               "`if state.isEmpty(nextLine): break` dropped in paragraph", 1)
+    # C15 (IDENT): structural equality on tree nodes
+    def add_eq(n):
+        n = copy.deepcopy(n)
+        n.body.append(ast.parse("def __eq__(self, other):\n    return isinstance(other, SyntaxTreeNode) and self.token == other.token and self.children == other.children").body[0])
+        return n
+    m += _each("tree.py", src, lambda n: isinstance(n, ast.ClassDef) and n.name == "SyntaxTreeNode", add_eq, "C15", "SyntaxTreeNode gains a structural __eq__", 1)
+    # C16 (NLCOUNT): the title's line count taken from the decoded text
+    def decoded_count(n):
+        n = copy.deepcopy(n)
+        n.value = ast.parse("title.count('\\n')", mode="eval").body
+        return n
+    m += _each("helpers/parse_link_title.py", src, lambda n: isinstance(n, ast.Assign) and U(n.targets[0]) == "result.lines" and isinstance(n.value, ast.Name),
+               decoded_count, "C16", "result.lines = title.count('\\n') (decoded text)", 1)
     # C18: parse phase reads a renderer-only option
     def read_breaks(n):
         n = copy.deepcopy(n)
